@@ -77,15 +77,15 @@ CHECKS = {
         note='Trusted: CrossHair + patches, z3, the json stub contract. N<=4/5 within the Glencoe fragment. Name alphabet: native sweep, not solver-decided.'),
     'C10': dict(
         category='translation_validation', design_ref='6 C10',
-        technique='z3 equivalence queries (all 2^n selections at once) between the reference configuration semantics and independent interpreters of the exported SXFM / propositional text, per enumerated model',
+        technique='z3 equivalence queries (all 2^n selections at once) between the reference configuration semantics and independent interpreters of the exported SXFM / propositional text, per enumerated model; CrossHair symbolic execution (z3) of both writers on a symbolic feature name (export == placeholder export with the name substituted)',
         text='Every export is treated as a program: the real writers run on every enumerated model (all shapes, all cardinalities, constraint trees over the eight logical operators), the text is interpreted by an independent interpreter of the target format, '
              'and one z3 query per program decides equivalence with the source semantics over all selections; a sat answer is a concrete disagreeing selection. Bounded.',
-        note='Trusted: z3, tree2z3 reference semantics, the interpreters in fmverif/props/interp.py. N<=4/5. AST.get_clauses (dependency) runs as is; its XOR/EQUIVALENCE defect is a listed known finding.'),
+        note='Trusted: z3, tree2z3 reference semantics, the interpreters in fmverif/props/interp.py, CrossHair + engine patches for the name conditions (|name|<=3/4, identifier characters, not a connective of the format; SPLOT: non-root features, name outside the constraints). N<=4/5. AST.get_clauses (dependency) runs as is; its XOR/EQUIVALENCE defect is a listed known finding.'),
     'C11': dict(
         category='translation_validation', design_ref='6 C11',
-        technique='z3 equivalence queries (all 2^n selections at once) between the reference configuration semantics and an independent interpreter of the emitted Clafer subset, per enumerated model; identifier consistency on the parsed text',
+        technique='z3 equivalence queries (all 2^n selections at once) between the reference configuration semantics and an independent interpreter of the emitted Clafer subset, per enumerated model; identifier consistency on the parsed text; CrossHair symbolic execution (z3) of the writer on a symbolic feature name (export == placeholder export with the name substituted)',
         text='The real Clafer writer runs on every enumerated fragment model with constraints and attributes; the text is interpreted under Clafer group / cardinality semantics and one z3 query per program decides equivalence over all selections; declarations and uses of identifiers are compared. Bounded.',
-        note='Trusted: z3, tree2z3, interp.clafer2z3. N<=4/5 within the Clafer fragment.'),
+        note='Trusted: z3, tree2z3, interp.clafer2z3, CrossHair + engine patches for the name conditions (|name|<=3/4, identifier characters, not a Clafer word, non-root features; attribute names stay with the native lists). N<=4/5 within the Clafer fragment.'),
     'C01': dict(
         category='model_checking', design_ref='6 C01/C05/C06/C07/C08',
         technique='CrossHair symbolic execution (z3) of the UVL writer leaves and whole writer composed with the real UVLReader.transform() on real parse trees whose payload tokens carry symbolic text (token substitution; lexer as a validated contract)',
